@@ -20,7 +20,7 @@ nbytes_s = st.binary(min_size=1, max_size=40).map(lambda b: b.hex())
 MASK_BITS = [1 << i for i in range(20)]
 masks_s = st.lists(st.sampled_from(MASK_BITS), min_size=1, max_size=4, unique=True)
 alg_s = st.integers(1, 0x1A)
-date_s = st.integers(1, 2_000_000_000)
+date_s = st.one_of(st.just(0), st.integers(0, 2_000_000_000))
 
 
 def opt(s):
